@@ -216,9 +216,14 @@ impl<Front: SocketHandler> ConnectionH1<Front> {
             !kawa.is_terminated(),
             "terminate_close_delimited must not run on an already-terminated kawa"
         );
-        if kawa.body_size == kawa::BodySize::Chunked {
+        // A Content-Length body with bytes still missing is truncated just
+        // like a chunked body without its terminator (RFC 9112 §8): it must
+        // not be presented as complete.
+        let short_length_body =
+            matches!(kawa.body_size, kawa::BodySize::Length(_)) && kawa.expects > 0;
+        if kawa.body_size == kawa::BodySize::Chunked || short_length_body {
             warn!(
-                "{} H1 backend EOF mid-chunked response on stream {}: emitting RST_STREAM",
+                "{} H1 backend EOF before the end of a chunked or Content-Length response on stream {}: emitting RST_STREAM",
                 log_module_context!(),
                 stream_id
             );
